@@ -1043,7 +1043,14 @@ pub fn gen_valid(rng: &mut Rng, flavor: Flavor, keys: &KeyWorld, plan: NtsPlan) 
             let n_ph = *rng.pick(&[0usize, 0, 1, 2, 3, 7, 7, 9, 11]);
             for _ in 0..n_ph {
                 // RFC 8915: placeholders have the cookie's length; longer ones are harmless
-                let n = if rng.chance(1, 6) { clen + rng.usize(1, 16) * 4 } else { clen };
+                // (shorter ones simply cannot be filled; the answer must then do without that cookie)
+                let n = if rng.chance(1, 6) {
+                    clen + rng.usize(1, 16) * 4
+                } else if rng.chance(1, 6) {
+                    rng.usize(3, (clen / 4).max(4)) * 4
+                } else {
+                    clen
+                };
                 if rng.chance(1, 8) {
                     enc_fields.push(F::Placeholder(n));
                 } else {
@@ -1062,6 +1069,13 @@ pub fn gen_valid(rng: &mut Rng, flavor: Flavor, keys: &KeyWorld, plan: NtsPlan) 
             }
             if rng.chance(1, 8) {
                 enc_fields.push(F::Uid(uid_value(rng, true)));
+            }
+            if rng.chance(1, 6) {
+                // extra cookie fields inside the encrypted part (RFC 8915 lets encrypted fields be short)
+                for _ in 0..rng.usize(1, 3) {
+                    let n = rng.usize(3, 26) * 4;
+                    enc_fields.push(F::Cookie(fresh(rng, n)));
+                }
             }
             if v5 {
                 let at = rng.usize(0, auth_fields.len());
